@@ -27,6 +27,7 @@ import (
 	"golang.org/x/time/rate"
 
 	"dsim/core"
+	"dsim/simrt"
 )
 
 type Scenario struct {
@@ -106,6 +107,7 @@ func RunOne(t *testing.T, sc *Scenario, seed uint64, idx int, mode string, repla
 	runSeed := seed*1000003 + uint64(idx)*7919 + 17
 	crand.Reader = &lockedReader{r: core.NewStream(runSeed)}
 	dht.VerifOrderSalt.Store(runSeed)
+	simrt.SetHashSalt(runSeed)
 	// Transaction ids come from a process-wide counter: restart it so that a
 	// run does not depend on what ran earlier in this process.
 	iv := reflect.ValueOf(&transactions.DefaultIdIssuer).Elem()
